@@ -304,13 +304,29 @@ def c10_near_integer(rep):
     """block_dur * rate just outside the 1e-9 ambiguity band on either side of an integer: block_size is the exact
     floor (the band itself is left unjudged, rule R2); a product below 1 by more than the band is rejected."""
     L = lib()
-    for rate in (100, 8000, 16000, 22050, 44100, 48000):
+    for rate in (100, 8000, 16000, 22050, 44100, 48000, 49, 98, 103, 11000, 22000, 44000) + tuple(range(1, 200, 7)):
         for k in (1, 2, 7, 432, 1024):
             for delta in (-1e-3, -1e-6, -1e-7, -1e-8, 0.0, 1e-8, 1e-7, 1e-6, 1e-3):
                 bd = (k + delta) / rate
                 q = Fraction(bd) * rate
                 if q.denominator != 1 and abs(q - round(q)) < Fraction(1, 10 ** 9):
+                    # inside the band either neighbour is right - but it must be one of them: rejected or a working reader
                     rep.add("ambiguous_skipped")
+                    rep.add("evaluations")
+                    near = round(q)
+                    try:
+                        r = L["util"].AudioReader(bytes(2 * (2 * k + 3)), block_dur=bd, sr=rate, sw=2, ch=1)
+                        r.open()
+                        first = r.read()
+                        got = (r.block_size, None if first is None else len(first) // 2)
+                        r.close()
+                        ok = got[0] in (near - 1, near) and got[0] >= 1 and got[1] == got[0]
+                    except Exception as exc:
+                        got, ok = "raised %s" % type(exc).__name__, near - 1 < 1
+                    if not ok:
+                        rep.violation("reader-near-integer rate=%d block_dur=%r" % (rate, bd),
+                                      "block_dur=%r at %d Hz (exact product %.17g): reader gives (block_size, first block) = %r; neither %d nor %d samples%s" % (
+                                          bd, rate, float(q), got, near - 1, near, " nor a rejection" if near - 1 < 1 else ""), {"kind": "c10near"})
                     continue
                 want = math.floor(q)
                 rep.add("evaluations")
